@@ -1055,6 +1055,23 @@ func callBuiltin(caller *frame, callpos token.Pos, fn *ssa.Builtin, args []value
 			panic(fmt.Sprintf("cap: illegal operand: %T", x))
 		}
 
+	case "clear":
+		switch x := args[0].(type) {
+		case *omap:
+			x.clear()
+		case []value:
+			if len(x) > 0 {
+				et := caller.fn.Prog.Fset // placeholder to keep imports stable
+				_ = et
+			}
+			for i := range x {
+				x[i] = zeroLike(x[i])
+			}
+		default:
+			panic(fmt.Sprintf("clear: illegal operand: %T", x))
+		}
+		return nil
+
 	case "min":
 		return foldLeft(min, args)
 	case "max":
@@ -1536,3 +1553,66 @@ func fandbits[F floaty](x, y F) F {
 	return x
 }
 
+
+
+// zeroLike returns the zero value with the same dynamic representation as v (used by clear on slices).
+func zeroLike(v value) value {
+	switch v := v.(type) {
+	case bool:
+		return false
+	case int:
+		return int(0)
+	case int8:
+		return int8(0)
+	case int16:
+		return int16(0)
+	case int32:
+		return int32(0)
+	case int64:
+		return int64(0)
+	case uint:
+		return uint(0)
+	case uint8:
+		return uint8(0)
+	case uint16:
+		return uint16(0)
+	case uint32:
+		return uint32(0)
+	case uint64:
+		return uint64(0)
+	case uintptr:
+		return uintptr(0)
+	case float32:
+		return float32(0)
+	case float64:
+		return float64(0)
+	case string, symstr:
+		return ""
+	case sym:
+		if v.bits == 0 {
+			return false
+		}
+		return E.mk(v.bits, bvconst(0, v.bits))
+	case *value:
+		return (*value)(nil)
+	case iface:
+		return iface{}
+	case structure:
+		r := make(structure, len(v))
+		for i := range v {
+			r[i] = zeroLike(v[i])
+		}
+		return r
+	case array:
+		r := make(array, len(v))
+		for i := range v {
+			r[i] = zeroLike(v[i])
+		}
+		return r
+	case []value:
+		return []value(nil)
+	case *omap:
+		return (*omap)(nil)
+	}
+	panic(infraError{fmt.Sprintf("zeroLike %T", v)})
+}
